@@ -63,13 +63,23 @@ structure St where
   uninitStore : Bool
   /-- the `tmp_i != tmp_e` test of `cov_mat(false)` was executed with unassigned iterators -/
   uninitCovEnd : Bool
+  /-- `pointlist == &adj->adjusted_points` -/
+  listAdjusted : Bool
+  /-- `tmp_point_adjusted` -/
+  pointAdjusted : Bool
+  /-- what `band(false)` counts: `adj->orientations.size()` + the non-zero `indx/indy/indz` of `adj->adjusted_points`
+      (a point pushed to that list carries 2 indexes if it has x and y, 1 if it has z, when `tmp_point_adjusted`; `tmp_point.clear()`
+      zeroes them at every `<point>`) -/
+  unknowns : Nat
+  /-- every `adj->cov.reset(dim, band)` executed: (number of elements allocated, `unknowns` at that moment, `band`) -/
+  allocs : List (Nat × Nat × Int)
   deriving Repr, DecidableEq
 
 /-- constructor: `init()` sets `state = s_start`; CoreParser(): `errCode = 0` -/
 def St.init : St :=
   { state := .start_, err := none, n := 0, stack := [], data := [], category := "", str := [], stage := 0,
     flags := [], dim := 0, band := 0, covSize := 0, iterI := none, iterE := none, writes := [],
-    uninitStore := false, uninitCovEnd := false }
+    uninitStore := false, uninitCovEnd := false, listAdjusted := false, pointAdjusted := false, unknowns := 0, allocs := [] }
 
 /-- `CoreParser::error` -/
 def St.error (st : St) (k : Err) : St :=
@@ -161,6 +171,16 @@ def St.store (st : St) (guarded : Bool) : St :=
       { st1 with writes := (i, st.covSize) :: st1.writes, iterI := some (i + 1) }
   | _, _ => { st with uninitStore := true }
 
+/-- the bookkeeping statements -/
+def St.book (st : St) : Book → St
+  | .listAdjusted v => { st with listAdjusted := v }
+  | .pointAdjusted v => { st with pointAdjusted := v }
+  | .pushPoint =>
+    if st.listAdjusted && st.pointAdjusted then
+      { st with unknowns := st.unknowns + (if st.flag .hasX && st.flag .hasY then 2 else 0) + (if st.flag .hasZ then 1 else 0) }
+    else st
+  | .pushOrientation => { st with unknowns := st.unknowns + 1 }
+
 /-- one statement of a handler; the Bool says whether the handler continues with the next statement -/
 def execOp (op : Op) (as : List (String × String)) (st : St) : St × Bool :=
   match op with
@@ -189,9 +209,11 @@ def execOp (op : Op) (as : List (String × String)) (st : St) : St × Bool :=
   | .requireFlagEq a b e => (if st.flag a != st.flag b then st.error e else st, true)
   | .setFlag f v => (st.setFlag f v, true)
   | .covGuard e =>
-    (if st.dim < 0 || st.band < 0 || st.band > max (st.dim - 1) 0 || (st.band + 1) * st.dim > intMax
+    (if st.dim < 0 || st.band < 0 || st.band > max (st.dim - 1) 0 || (st.band + 1) * st.dim > intMax ||
+        (covGuardUnknowns && st.dim > st.unknowns)
      then { st.error e with dim := 0, band := 0 } else st, true)
-  | .covReset => ({ st with covSize := covElems st.dim st.band, iterI := none, iterE := none }, true)
+  | .covReset => ({ st with covSize := covElems st.dim st.band, iterI := none, iterE := none,
+                              allocs := (covElems st.dim st.band, st.unknowns, st.band) :: st.allocs }, true)
   | .iterBegin => ({ st with iterI := some 0 }, true)
   | .iterEnd => ({ st with iterE := some st.covSize }, true)
   | .iterErr g whenAtEnd e => (st.iterErr g whenAtEnd e, true)
@@ -199,6 +221,7 @@ def execOp (op : Op) (as : List (String × String)) (st : St) : St × Bool :=
   | .requireString allowed e => (if allowed.contains (String.ofList st.str) then st else st.error e, true)
   | .error e => (st.error e, true)
   | .data => (st, true)
+  | .book b => (st.book b, true)
 
 def execOps : List Op → List (String × String) → St → St
   | [], _, st => st
